@@ -382,6 +382,7 @@ func cmdWasm(args []string) {
 		start := 0
 		for {
 			cmd := exec.Command("node", *driver, via, dir, scFile, res, fmt.Sprint(start))
+			childDiesWithUs(cmd)
 			var outb bytes.Buffer
 			cmd.Stdout, cmd.Stderr = &outb, &outb
 			if err := cmd.Start(); err != nil {
